@@ -29,13 +29,14 @@ type Session struct {
 	BC   *core.BlockChain
 	Dead bool // a panic / unmodelled branch ended it
 	// oracle bookkeeping (from the harness' own knowledge of the tree, not from the model)
-	Eligible  map[int]bool // full session: delivered, valid, all ancestors eligible
-	HdrElig   map[int]bool // delivered as header (or block) with eligible ancestors
-	Shortened bool         // some insert made the head number go down
-	Rewound   map[int]bool // blocks that were canonical above a SetHead target
-	Mixed     bool         // headers were fed to a full chain: the C03 statement has no single head any more
-	Forgiven  map[int]bool // blocks above the head after a Rollback: stored and validated but deliberately un-headed, until re-offered
-	Pruning   bool         // session "p": a pruning (non-archive) node; the archive-only model is not consulted, the direct oracle runs alone
+	Eligible   map[int]bool // full session: delivered, valid, all ancestors eligible
+	HdrElig    map[int]bool // delivered as header (or block) with eligible ancestors
+	Shortened  bool         // some insert made the head number go down
+	Rewound    map[int]bool // blocks that were canonical above a SetHead target
+	Mixed      bool         // headers were fed to a full chain: the C03 statement has no single head any more
+	RolledBack map[int]bool // blocks a Rollback ever stepped back over (permanent): Rollback is outside C03's operation set
+	Forgiven   map[int]bool // blocks above the head after a Rollback: stored and validated but deliberately un-headed, until re-offered
+	Pruning    bool         // session "p": a pruning (non-archive) node; the archive-only model is not consulted, the direct oracle runs alone
 }
 
 // tdSnap remembers a *big.Int handed out by a getter and the value it had.
@@ -74,7 +75,7 @@ func (r *Runner) open(s *Session) error {
 }
 
 func (r *Runner) newSession(name string) *Session {
-	s := &Session{Name: name, DB: NewRecDB(), Eligible: map[int]bool{0: true}, HdrElig: map[int]bool{0: true}, Rewound: map[int]bool{}, Forgiven: map[int]bool{}, Pruning: name == "p"}
+	s := &Session{Name: name, DB: NewRecDB(), Eligible: map[int]bool{0: true}, HdrElig: map[int]bool{0: true}, Rewound: map[int]bool{}, Forgiven: map[int]bool{}, RolledBack: map[int]bool{}, Pruning: name == "p"}
 	r.T.Gspec.MustCommit(s.DB)
 	s.DB.Take() // the genesis writes are the model's initial disk
 	g := r.T.Blocks[0]
@@ -417,6 +418,7 @@ func (r *Runner) Apply(k int, op OpSpec) {
 	case "rollback":
 		for b := headBefore; b != 0 && b != headAfter && t.Num[b] > t.Num[headAfter]; b = t.Spec[b].Parent {
 			s.Forgiven[b] = true
+			s.RolledBack[b] = true
 		}
 		// the head was lowered on purpose: whatever is heavier than it now (side branches included)
 		// does not count against it until it is offered again
@@ -829,8 +831,11 @@ func (r *Runner) oracleC03(s *Session, k int, op OpSpec) {
 			continue
 		}
 		x, known := t.ByHash[got]
-		if known && s.Forgiven[x] {
-			continue // Rollback only moves the head pointers: the rolled-back blocks keep their number entries
+		if known && s.RolledBack[x] {
+			// C03 quantifies over InsertChain / InsertHeaderChain / SetHead histories; Rollback (a downloader-internal,
+			// pointer-only operation) is exercised for the model correspondence and the all-ops soundness clauses, but the
+			// number entries it leaves for the blocks it stepped back over are outside the property's statement
+			continue
 		}
 		if full && s.Shortened && known && t.Num[x] == n && !t.IsAncestor(x, head) {
 			r.C.Violate("reorg-shorter-heavier-stale-canon", "after a reorganisation to a shorter but heavier branch the abandoned blocks stay reachable by number above the new head (GetBlockByNumber(head+k))",
@@ -866,8 +871,8 @@ func (r *Runner) oracleC03(s *Session, k int, op OpSpec) {
 			continue
 		}
 		x, known := t.ByHash[lb]
-		if known && s.Forgiven[x] {
-			continue // same: Rollback keeps the lookup entries of the rolled-back blocks
+		if known && s.RolledBack[x] {
+			continue // same: the lookup entries (and receipts) of blocks a Rollback stepped back over
 		}
 		if known && s.Rewound[x] {
 			r.C.Violate("sethead-leaves-lookups-receipts", "SetHead deletes the bodies of rewound blocks but keeps their transaction lookup entries and receipts (GetTxLookupEntry / GetReceipt still resolve a transaction that is in no canonical block)",
